@@ -16,7 +16,8 @@ Alpha == Sends(TRUE) \o Sends(FALSE) \o <<
   SendF(1, 255, 3, 13, PEmpty, TRUE), SendF(1, 0, 1, 0, Pa, TRUE),
   Recv_(2, 255, 3, 22, P1), Recv_(2, 255, 3, 32, PEmpty), Recv_(1, 255, 3, 22, P1), Recv_(2, 255, 3, 0, P57),
   RecvF(2, 255, 3, 22, P1, "rel", 1), RecvF(2, 255, 3, 32, PEmpty, "rel", 1),   \* a write fault while releasing
-  Junk_("str"), Junk_("none"), Junk_("int"), Junk_("object"), Junk_("dictmissing")
+  Junk_("str"), Junk_("none"), Junk_("int"), Junk_("object"), Junk_("dictmissing"),
+  Cycle_
 >>
 Inits == << St(Reg, "1.4", "1.4", TRUE), St(Reg, "1.5", "1.5", TRUE), St(Reg, "2.0", "2.0", TRUE),
             St(Reg, "2.1", "2.1", TRUE), St(Reg, "2.2", "2.2", TRUE) >>
